@@ -7,13 +7,29 @@
 //! aggregate(txpool) validates against the head, aggregate(stempool + txpool) likewise, and the
 //! block assembled from `prepare_mineable_transactions` the way `mine_block.rs` does it is
 //! accepted by a chain (the builder chain serves as the scratch copy).
+//!
+//! Evictions at capacity: scripted histories fill the pool beyond `max_pool_size`, trigger the
+//! eviction of a transaction E and then submit children of E (before and after the next block,
+//! fluff and stem, both input forms); random histories do the same whenever something was evicted.
+//! Every input of every entry is looked up (`Chain::get_unspent` / outputs of the other entries)
+//! after every step, and before every submission the inputs that exist nowhere are computed:
+//! admitting such a transaction is an oracle failure.  The recorded finding
+//! C14-evict-breaks-joint-validity is recognised precisely: the spender entered the pool no later
+//! than the eviction of the creator.
+//!
+//! Submission forms: every transaction can be submitted with `Inputs::CommitOnly` or
+//! `Inputs::FeaturesAndCommit` inputs (right features, wrong features, wrong order).
+//!
+//! Scenarios and histories are independent and run on worker threads (`VERIF_THREADS`, default 8);
+//! output is collected per job and printed in a fixed order, so a run is reproducible from
+//! `VERIF_SEED`.
 use grin_chain::types::{BlockStatus, ChainAdapter as ChainEvents, Options};
 use grin_chain::Chain;
 use grin_core::core::hash::{Hash, Hashed};
 use grin_core::core::transaction::{self, FeeFields, NRDRelativeHeight};
 use grin_core::core::{
-	Block, BlockHeader, BlockSums, CommitWrapper, Inputs, KernelFeatures, OutputIdentifier, Transaction,
-	TxKernel, Weighting,
+	Block, BlockHeader, BlockSums, CommitWrapper, Input, Inputs, KernelFeatures, OutputFeatures,
+	OutputIdentifier, Transaction, TxKernel, Weighting,
 };
 use grin_core::global;
 use grin_core::pow;
@@ -25,6 +41,27 @@ use gvharness::*;
 use std::collections::{BTreeMap, BTreeSet, HashMap};
 use std::sync::atomic::{AtomicBool, Ordering};
 use std::sync::{Arc, Mutex};
+
+/// Output sink collecting the lines of one scenario / history in memory (they run on worker
+/// threads; the collected text is printed in a fixed order).  Shadows `gvharness::Out`.
+struct Out {
+	buf: String,
+}
+impl Out {
+	fn new() -> Out {
+		Out { buf: String::new() }
+	}
+	fn line(&mut self, lhs: &str, rhs: &str) {
+		self.buf.push_str(lhs);
+		self.buf.push_str(" => ");
+		self.buf.push_str(rhs);
+		self.buf.push('\n');
+	}
+	fn raw(&mut self, s: &str) {
+		self.buf.push_str(s);
+		self.buf.push('\n');
+	}
+}
 
 const MATURITY: u64 = 3;
 const FEE_BASE: u64 = 2;
@@ -135,6 +172,31 @@ struct TxRec {
 	kind: String,
 }
 
+/// the form in which the inputs of a submitted transaction travel
+#[derive(Clone, Copy, PartialEq, Debug)]
+enum Form {
+	/// `Inputs::CommitOnly` (what `build::transaction` and `aggregate` produce)
+	V3,
+	/// `Inputs::FeaturesAndCommit` with the features of the outputs spent, in `Input` order
+	/// (wallets pushing through the API, v2 peers)
+	V2,
+	/// the same with every claimed feature wrong (`convert_tx_v2` overwrites the claims)
+	V2WrongFeatures,
+	/// `Inputs::FeaturesAndCommit` left in commitment order where the `Input` order differs
+	V2Unsorted,
+}
+
+impl Form {
+	fn tag(self) -> &'static str {
+		match self {
+			Form::V3 => "v3",
+			Form::V2 => "v2",
+			Form::V2WrongFeatures => "v2x",
+			Form::V2Unsorted => "v2u",
+		}
+	}
+}
+
 #[derive(Clone, Default)]
 struct AState {
 	utxo: BTreeMap<usize, (u64, bool)>,
@@ -162,6 +224,16 @@ struct World {
 	evicted_outs: BTreeSet<usize>,
 	/// inputs of evicted transactions (a remaining tx may re-create such a commitment)
 	evicted_ins: BTreeSet<usize>,
+	/// operation counter (submissions, blocks, evictions, truncations)
+	step: u64,
+	/// output created by an evicted transaction -> step of the (latest) eviction of its creator
+	evicted_at: BTreeMap<usize, u64>,
+	/// structural identity of a pool entry (txpool or stempool) -> step at which it entered
+	admitted_at: HashMap<String, u64>,
+	/// form used by `submit` (random histories pick one per submission)
+	default_form: Form,
+	/// eviction-focused history: mostly admissible submissions, few blocks
+	focus: bool,
 	/// transactions first admitted below the minimum fee while the txpool was over capacity
 	lowfee_known: BTreeSet<String>,
 	over_capacity_before: bool,
@@ -228,6 +300,11 @@ impl World {
 			outs_described: 0,
 			evicted_outs: BTreeSet::new(),
 			evicted_ins: BTreeSet::new(),
+			step: 0,
+			evicted_at: BTreeMap::new(),
+			admitted_at: HashMap::new(),
+			default_form: Form::V3,
+			focus: false,
 			lowfee_known: BTreeSet::new(),
 			over_capacity_before: false,
 			validated: std::collections::HashSet::new(),
@@ -384,6 +461,97 @@ impl World {
 	// -------------------------------------------------------------------------------------
 	// oracles on the implementation
 
+	/// the transaction with its inputs in the given form; None when the form does not apply
+	/// (`V2Unsorted` needs inputs whose `Input` order differs from their commitment order)
+	fn in_form(&self, tx: &Transaction, form: Form) -> Option<Transaction> {
+		if form == Form::V3 {
+			return Some(tx.clone());
+		}
+		let commits: Vec<CommitWrapper> = tx.inputs().into();
+		let unsorted: Vec<Input> = commits
+			.iter()
+			.map(|c| {
+				let cb = self.oid(&c.commitment()).map(|i| self.kit.outs[i].coinbase).unwrap_or(false);
+				let cb = if form == Form::V2WrongFeatures { !cb } else { cb };
+				Input::new(if cb { OutputFeatures::Coinbase } else { OutputFeatures::Plain }, c.commitment())
+			})
+			.collect();
+		let mut sorted = unsorted.clone();
+		sorted.sort_unstable();
+		let inputs = if form == Form::V2Unsorted {
+			if sorted.iter().zip(unsorted.iter()).all(|(a, b)| a == b) {
+				return None;
+			}
+			unsorted
+		} else {
+			sorted
+		};
+		Some(Transaction {
+			body: tx.body.clone().replace_inputs(Inputs::FeaturesAndCommit(inputs)),
+			..tx.clone()
+		})
+	}
+
+	/// is the output unspent at the node's head? (asked of the chain directly)
+	fn unspent_on_head(&self, o: usize) -> bool {
+		match self.kit.outs.get(o) {
+			Some(r) => matches!(self.node.get_unspent(r.commit), Ok(Some(_))),
+			None => false,
+		}
+	}
+
+	/// inputs of `tx` that exist nowhere: not unspent at the head, not created by an entry of the
+	/// txpool (nor, with `with_stem`, of the stempool) - computed from the pool's entries, not
+	/// from anything the pool computed
+	fn missing_inputs(&self, tx: &Transaction, with_stem: bool) -> Vec<usize> {
+		let mut created = BTreeSet::new();
+		for e in self.pool.txpool.entries.iter() {
+			created.extend(self.tx_outs(&e.tx));
+		}
+		if with_stem {
+			for e in self.pool.stempool.entries.iter() {
+				created.extend(self.tx_outs(&e.tx));
+			}
+		}
+		let mut v: Vec<usize> =
+			self.tx_ins(tx).into_iter().filter(|i| !created.contains(i) && !self.unspent_on_head(*i)).collect();
+		v.sort();
+		v
+	}
+
+	/// outputs of evicted transactions that currently exist nowhere (neither unspent at the head
+	/// nor created by a pool entry): what a child of an evicted transaction would spend
+	fn evicted_live(&self) -> Vec<usize> {
+		let mut created = BTreeSet::new();
+		for e in self.pool.txpool.entries.iter().chain(self.pool.stempool.entries.iter()) {
+			created.extend(self.tx_outs(&e.tx));
+		}
+		self.evicted_at.keys().cloned().filter(|o| !created.contains(o) && !self.unspent_on_head(*o)).collect()
+	}
+
+	fn note_evicted(&mut self, gone: &[Transaction]) {
+		for g in gone {
+			for o in self.tx_outs(g) {
+				self.evicted_outs.insert(o);
+				self.evicted_at.insert(o, self.step);
+			}
+			for i in self.tx_ins(g) {
+				self.evicted_ins.insert(i);
+			}
+		}
+	}
+
+	/// `<tx>@<output>` for every input that exists nowhere, entries in pool order
+	fn orphan_list(&mut self, txs: &[Transaction]) -> String {
+		let mut items = vec![];
+		let mut orphans = self.orphan_inputs(txs);
+		orphans.sort();
+		for (n, o) in orphans {
+			items.push(format!("{}@o{}", self.tx_sig(&txs[n]), o));
+		}
+		format!("[{}]", items.join(","))
+	}
+
 	fn validate_set(&self, txs: &[Transaction]) -> Result<(), String> {
 		if txs.is_empty() {
 			return Ok(());
@@ -433,7 +601,26 @@ impl World {
 					e,
 					orphans.iter().map(|(n, o)| format!("{} spends o{}", sigs[*n], o)).collect::<Vec<_>>()
 				);
-				let by_evict = !orphans.is_empty() && orphans.iter().all(|(_, o)| self.evicted_outs.contains(o));
+				// the recorded finding concerns children that were ALREADY pooled when their parent was
+				// evicted (or were admitted by the very submission that triggered the eviction); a
+				// transaction that entered the pool after the eviction with such an input is new
+				let mut admitted_after = vec![];
+				for (n, o) in &orphans {
+					if let (Some(ev), Some(adm)) = (self.evicted_at.get(o), self.admitted_at.get(&sigs[*n])) {
+						if adm > ev {
+							admitted_after.push(format!("{} (admitted at op {}) spends o{} whose creator was evicted at op {}", sigs[*n], adm, o, ev));
+						}
+					}
+				}
+				if !admitted_after.is_empty() {
+					out.raw(&format!(
+						"#ORACLE-FAIL C14 child-of-evicted-transaction-in-pool (admitted AFTER the eviction of its parent) {:?}: {}",
+						admitted_after, desc
+					));
+					self.stat("finding:child-admitted-after-eviction");
+					return "bad";
+				}
+				let by_evict = !orphans.is_empty() && orphans.iter().all(|(_, o)| self.evicted_at.contains_key(o));
 				// a remaining transaction re-creates a commitment whose spender was evicted
 				let unspent_now: BTreeSet<usize> = self.node_utxo().iter().map(|x| x.0).collect();
 				let recreated: Vec<usize> = txs
@@ -634,6 +821,21 @@ impl World {
 		let txs: Vec<Transaction> = tx_entries.iter().map(|e| e.tx.clone()).collect();
 		let mut both: Vec<Transaction> = stem_entries.iter().map(|e| e.tx.clone()).collect();
 		both.extend(txs.clone());
+		// when did each entry enter the pool (txpool or stempool)?
+		let present: BTreeSet<String> = both.iter().map(|t| self.tx_sig(t)).collect();
+		self.admitted_at.retain(|k, _| present.contains(k));
+		for k in &present {
+			let step = self.step;
+			self.admitted_at.entry(k.clone()).or_insert(step);
+		}
+		// every input of every entry: unspent at the head or created by another entry?
+		let av = self.orphan_list(&txs);
+		let avs = if stem_entries.is_empty() { av.clone() } else { self.orphan_list(&both) };
+		if av != "[]" {
+			self.stat("states-with-unavailable-input:txpool");
+		} else if avs != "[]" {
+			self.stat("states-with-unavailable-input:stempool-only");
+		}
 		let jv = self.jv_oracle(out, "txpool", &txs, ctx);
 		let jvs = if stem_entries.is_empty() { jv } else { self.jv_oracle(out, "stempool+txpool", &both, ctx) };
 		let mine = self.mine_oracle(out, ctx);
@@ -671,7 +873,17 @@ impl World {
 		}
 		out.line(
 			"pool obs",
-			&format!("tx=[{}] stem=[{}] cache=[{}] jv={} jvs={} mine={}", t.join(","), s.join(","), c.join(","), jv, jvs, mine),
+			&format!(
+				"tx=[{}] stem=[{}] cache=[{}] jv={} jvs={} av={} avs={} mine={}",
+				t.join(","),
+				s.join(","),
+				c.join(","),
+				jv,
+				jvs,
+				av,
+				avs,
+				mine
+			),
 		);
 	}
 
@@ -679,10 +891,29 @@ impl World {
 	// ops
 
 	fn submit(&mut self, out: &mut Out, t: usize, src: TxSource, stem: bool, stem_ok: bool) -> String {
-		let tx = self.txs[t].tx.clone();
+		let form = self.default_form;
+		self.submit_form(out, t, src, stem, stem_ok, form)
+	}
+
+	/// submit transaction `t` with its inputs in the given form (falls back to `V2` when
+	/// `V2Unsorted` does not apply to it)
+	fn submit_form(&mut self, out: &mut Out, t: usize, src: TxSource, stem: bool, stem_ok: bool, form: Form) -> String {
+		self.step += 1;
+		let base = self.txs[t].tx.clone();
+		let (tx, form) = match self.in_form(&base, form) {
+			Some(x) => (x, form),
+			None => (self.in_form(&base, Form::V2).unwrap(), Form::V2),
+		};
 		let header = self.node.head_header().unwrap();
 		self.stem_ok.store(stem_ok, Ordering::SeqCst);
 		let before: Vec<Transaction> = self.pool.txpool.entries.iter().map(|e| e.tx.clone()).collect();
+		// the path the pool will take, and (independently of the pool's own look-ups) the inputs
+		// of the submitted transaction that exist nowhere on that path
+		let stem_path = stem && !self.pool.stempool.contains_tx(&tx);
+		let deaggregates = !stem_path
+			&& tx.kernels().len() > 1
+			&& self.pool.txpool.entries.iter().any(|e| e.tx.kernels().iter().all(|k| tx.kernels().contains(k)));
+		let missing = if deaggregates { vec![] } else { self.missing_inputs(&tx, stem_path) };
 		let r = catch(std::panic::AssertUnwindSafe(|| self.pool.add_to_pool(src, tx.clone(), stem, &header)));
 		let res = match &r {
 			Ok(Ok(())) => "ok".to_string(),
@@ -690,18 +921,72 @@ impl World {
 			Err(p) => format!("panic:{}", p.replace(' ', "_")),
 		};
 		let lhs = format!(
-			"pool submit t{} src={} stem={} stemok={}",
+			"pool submit t{} src={} stem={} stemok={} form={}",
 			t,
 			src_letter(src),
 			if stem { 1 } else { 0 },
-			if stem_ok { 1 } else { 0 }
+			if stem_ok { 1 } else { 0 },
+			form.tag()
 		);
 		out.line(&lhs, &res);
 		let kind = self.txs[t].kind.clone();
+		let path = if stem_path { "stem" } else { "fluff" };
 		self.stat(&format!("submit:{}:{}", kind, res));
 		self.stat(&format!("result:{}", res));
+		self.stat(&format!("form:{}:{}", form.tag(), path));
+		self.stat(&format!("form:{}:{}", form.tag(), if res == "ok" { "admitted" } else { "refused" }));
 		if res.starts_with("panic") {
 			out.raw(&format!("#ORACLE-FAIL C14 pool-panicked hist={} {} => {}", self.name, lhs, res));
+		}
+		// a transaction with an input that exists nowhere must be refused: in particular a child of
+		// an evicted transaction submitted after the eviction
+		let missing_evicted: Vec<usize> = missing.iter().cloned().filter(|o| self.evicted_at.contains_key(o)).collect();
+		if !missing_evicted.is_empty() {
+			self.stat(&format!("evict:child-after-eviction:submitted:{}", path));
+			self.stat(&format!("evict:child-after-eviction:form:{}", form.tag()));
+			if res == "ok" {
+				self.stat(&format!("evict:child-after-eviction:ADMITTED:{}", path));
+			} else {
+				self.stat(&format!("evict:child-after-eviction:refused:{}:{}", path, res));
+			}
+		}
+		if !missing.is_empty() && res == "ok" {
+			let sig = self.tx_sig(&tx);
+			out.raw(&format!(
+				"#ORACLE-FAIL C14 transaction-with-unavailable-input-admitted hist={} {}: inputs {:?} are neither unspent at head b{} nor created by a {} entry{}; tx = {}",
+				self.name,
+				lhs,
+				missing.iter().map(|o| format!("o{}", o)).collect::<Vec<_>>(),
+				self.head,
+				if stem_path { "txpool or stempool" } else { "txpool" },
+				if missing_evicted.is_empty() {
+					String::new()
+				} else {
+					format!(
+						" ({:?} created by a transaction evicted at op {:?}: child of an evicted transaction submitted after the eviction)",
+						missing_evicted.iter().map(|o| format!("o{}", o)).collect::<Vec<_>>(),
+						missing_evicted.iter().map(|o| self.evicted_at[o]).collect::<Vec<_>>()
+					)
+				},
+				sig
+			));
+		}
+		// per-kind refusal statistics for the standalone-validity kinds
+		if kind.starts_with("over-weight") || kind.starts_with("low-fee") || kind.starts_with("invalid-") {
+			let k = kind.split(':').next().unwrap_or("").to_string();
+			self.stat(&format!("standalone:{}:{}:{}:{}", k, path, form.tag(), if res == "ok" { "ADMITTED" } else { "refused" }));
+			// (refused for another reason first - OverCapacity on the stem path, say - is fine; the
+			// reason itself is compared with the model's)
+			if k == "over-weight" && res == "ok" {
+				out.raw(&format!(
+					"#ORACLE-FAIL C14 over-weight-transaction-admitted hist={} {} => {} (weight {} > {})",
+					self.name,
+					lhs,
+					res,
+					tx.weight(),
+					global::max_tx_weight()
+				));
+			}
 		}
 		// eviction bookkeeping: transactions that were in the txpool before and are gone now
 		let after: Vec<Transaction> = self.pool.txpool.entries.iter().map(|e| e.tx.clone()).collect();
@@ -711,16 +996,14 @@ impl World {
 				gone.push(b.clone());
 			}
 		}
+		// the entry admitted by this very call may be the one evicted
+		if res == "ok" && !stem_path && before.len() > self.cfg.max_pool && gone.is_empty() {
+			self.stat("evictions-on-submit:new-entry-itself");
+		}
 		if !gone.is_empty() {
 			self.stat("evictions-on-submit");
-			for g in &gone {
-				for o in self.tx_outs(g) {
-					self.evicted_outs.insert(o);
-				}
-				for i in self.tx_ins(g) {
-					self.evicted_ins.insert(i);
-				}
-			}
+			self.stat(&format!("evictions-on-submit:pool-size-before={}", before.len()));
+			self.note_evicted(&gone);
 		}
 		self.over_capacity_before = before.len() > self.cfg.max_pool;
 		if res == "ok" {
@@ -728,6 +1011,14 @@ impl World {
 				out.raw(&format!(
 					"#ORACLE-FAIL C14 invalid-tx-admitted hist={} {} tags={:?}",
 					self.name, lhs, self.txs[t].tags
+				));
+			}
+			// (when the pool deaggregates, what it validates and stores is the remainder rebuilt by
+			// `transaction::deaggregate`, which sorts: the order of the submitted vector is never seen)
+			if form == Form::V2Unsorted && !deaggregates {
+				out.raw(&format!(
+					"#ORACLE-FAIL C14 invalid-tx-admitted hist={} {}: features-and-commit inputs not in Input order",
+					self.name, lhs
 				));
 			}
 		}
@@ -738,6 +1029,7 @@ impl World {
 
 	/// deliver a block to the node; reconcile the pool the way the server does on Next / Reorg
 	fn deliver(&mut self, out: &mut Out, bid: usize) -> String {
+		self.step += 1;
 		let b = self.kit.blks[bid].block.clone();
 		let old_h = self.node.head_header().unwrap().height;
 		*self.last_status.lock().unwrap() = None;
@@ -824,17 +1116,13 @@ impl World {
 	fn evict(&mut self, out: &mut Out) {
 		let before: Vec<Transaction> = self.pool.txpool.entries.iter().map(|e| e.tx.clone()).collect();
 		let r = catch(std::panic::AssertUnwindSafe(|| self.pool.evict_from_txpool()));
+		self.step += 1;
 		let after: Vec<Transaction> = self.pool.txpool.entries.iter().map(|e| e.tx.clone()).collect();
-		for b in &before {
-			if !after.contains(b) {
-				for o in self.tx_outs(b) {
-					self.evicted_outs.insert(o);
-				}
-				for i in self.tx_ins(b) {
-					self.evicted_ins.insert(i);
-				}
-			}
+		let gone: Vec<Transaction> = before.iter().filter(|b| !after.contains(b)).cloned().collect();
+		if !gone.is_empty() {
+			self.stat("evictions-explicit");
 		}
+		self.note_evicted(&gone);
 		out.line("pool evict", if r.is_ok() { "ok" } else { "panic" });
 		self.stat("op:evict");
 		self.obs(out, "pool evict");
@@ -1018,7 +1306,43 @@ fn random_submission(w: &mut World, out: &mut Out, rng: &mut Rng) -> bool {
 	let stem_ok = !rng.chance(1, 5);
 	let src = pick_src(rng);
 	let nh = w.next_height();
-	let kind = rng.below(100);
+	// a child of a transaction that was evicted (its input exists nowhere any more), paying well so
+	// that it would not be the next eviction victim; before the next block and after it
+	let live = w.evicted_live();
+	if live.is_empty() && w.pool.txpool.entries.len() > w.cfg.max_pool && !free.is_empty() && rng.chance(1, 2) {
+		// the txpool is over capacity: a well-paying independent transaction, so that the next
+		// admission evicts something whose children can then be tried
+		let o = *rng.pick(&free);
+		let nout = rng.range(1, 2) as usize;
+		let fee = World::weight_of(1, nout) * FEE_BASE * rng.range(3, 9);
+		return match w.spend(&[o], nout, fee, None) {
+			Some(tx) => {
+				let t = w.add_tx(out, tx, vec![], "valid-at-capacity");
+				w.submit(out, t, src, false, true);
+				true
+			}
+			None => false,
+		};
+	}
+	if !live.is_empty() && rng.chance(1, 4) {
+		let o = *rng.pick(&live);
+		let mut ins = vec![o];
+		let mut label = "child-of-evicted";
+		if !free.is_empty() && rng.chance(1, 4) {
+			ins.push(*rng.pick(&free));
+			label = "child-of-evicted-plus-utxo";
+		}
+		let fee = World::weight_of(ins.len(), 1) * FEE_BASE * rng.range(5, 12);
+		return match w.spend(&ins, 1, fee, None) {
+			Some(tx) => {
+				let t = w.add_tx(out, tx, vec![], label);
+				w.submit(out, t, src, stem, stem_ok);
+				true
+			}
+			None => false,
+		};
+	}
+	let kind = if w.focus && rng.chance(3, 5) { rng.range(5, 41) } else { rng.below(100) };
 	let (tx, tags, label): (Option<Transaction>, Vec<String>, &str) = if kind < 5 {
 		// re-creates an existing commitment (same key, same value): one that is unspent at the
 		// head, one that a pool transaction creates, or one that a pool transaction spends
@@ -1203,8 +1527,12 @@ fn random_submission(w: &mut World, out: &mut Out, rng: &mut Rng) -> bool {
 			return false;
 		}
 		let o = *rng.pick(&free);
-		let fee = World::weight_of(1, 11) * FEE_BASE + 3;
-		(w.spend(&[o], 11, fee, None), vec![], "over-weight")
+		let mut ins = vec![o];
+		if free.len() >= 2 && rng.chance(1, 2) {
+			ins.push(free.iter().cloned().find(|x| *x != o).unwrap());
+		}
+		let fee = World::weight_of(ins.len(), 11) * FEE_BASE + 3;
+		(w.spend(&ins, 11, fee, None), vec![], "over-weight")
 	} else if kind < 86 {
 		// crypto-level faults
 		if free.is_empty() {
@@ -1692,14 +2020,341 @@ fn scenario_reorg_lower(work: &str, out: &mut Out, total: &mut BTreeMap<String, 
 	}
 }
 
-fn run_history(work: &str, out: &mut Out, rng: &mut Rng, hist: usize, nops: usize, total: &mut BTreeMap<String, u64>) {
-	let cfg = match hist % 4 {
-		0 => Cfg { max_pool: 3, max_stem: 2, mine_w: 130 },
-		1 => Cfg { max_pool: 50, max_stem: 50, mine_w: 250 },
-		2 => Cfg { max_pool: 2, max_stem: 1, mine_w: 100 },
-		_ => Cfg { max_pool: 5, max_stem: 3, mine_w: 75 },
+
+fn merge_stats(w: &World, total: &mut BTreeMap<String, u64>) {
+	for (k, v) in &w.stats {
+		if k.contains("max-") {
+			let e = total.entry(k.clone()).or_insert(0);
+			if *v > *e {
+				*e = *v;
+			}
+		} else {
+			*total.entry(k.clone()).or_insert(0) += v;
+		}
+	}
+}
+
+/// Eviction at capacity, then - BEFORE the next block - children of the evicted transaction E
+/// (spending an output E created, paying far more than anything pooled), on the fluff and on the
+/// stem path and in both input forms; further submissions; explicit evictions back to capacity
+/// (so that the stem path is open again); a block; the same children again.  For contrast a child
+/// of E is already in the stempool (and, with `pooled_child`, one in the txpool) when E is evicted:
+/// that is the recorded finding C14-evict-breaks-joint-validity.
+fn scenario_evict_children(work: &str, out: &mut Out, total: &mut BTreeMap<String, u64>, variant: usize) {
+	let (name, max_pool, pooled_child) = match variant {
+		0 => ("evict-then-children-cap2", 2usize, false),
+		1 => ("evict-then-children-cap2-pooled-child", 2usize, true),
+		_ => ("evict-then-children-cap3", 3usize, false),
 	};
-	let mut w = World::new(work, &format!("h{}", hist), cfg);
+	let mut rng = Rng::new(90 + variant as u64);
+	let mut w = World::new(work, name, Cfg { max_pool, max_stem: 2, mine_w: 250 });
+	print_cfg(&w, out);
+	warm_up(&mut w, out, &mut rng, 12);
+	w.print_head(out);
+	w.obs(out, "start");
+	let mut free = w.free_utxo();
+	if free.len() < max_pool + 7 {
+		out.raw(&format!("#STAT scenario:{}=not-enough-outputs({})", name, free.len()));
+		return;
+	}
+	let mut take = || free.remove(0);
+	let w11 = World::weight_of(1, 1);
+	let b = TxSource::Broadcast;
+	// E: three outputs, the lowest fee rate of all (2): the eviction victim
+	let e_tx = w.spend(&[take()], 3, World::weight_of(1, 3) * FEE_BASE, None).unwrap();
+	let eo = w.tx_outs(&e_tx);
+	let te = w.add_tx(out, e_tx.clone(), vec![], "evictee-E");
+	w.submit(out, te, b, false, true);
+	// S: child of E, taken by the stempool while the txpool is within capacity
+	let s_tx = w.spend(&[eo[1]], 1, w11 * FEE_BASE * 3, None).unwrap();
+	let ts = w.add_tx(out, s_tx, vec![], "stem-child-of-E-before-eviction");
+	w.submit(out, ts, TxSource::PushApi, true, true);
+	// fillers up to max_pool + 1 entries (no eviction yet: is_acceptable looks at the size before)
+	let mut fillers = vec![];
+	let nfill = if pooled_child { max_pool - 1 } else { max_pool };
+	for k in 0..nfill {
+		let f = w.spend(&[take()], 1, w11 * FEE_BASE * (2 + k as u64), None).unwrap();
+		let t = w.add_tx(out, f.clone(), vec![], "filler");
+		w.submit_form(out, t, b, false, true, if k % 2 == 0 { Form::V2 } else { Form::V3 });
+		fillers.push(f);
+	}
+	if pooled_child {
+		// K: child of E and of a filler - two parents, skipped by bucket_transactions
+		let fo = w.tx_outs(&fillers[0])[0];
+		let k_tx = w.spend(&[eo[0], fo], 1, World::weight_of(2, 1) * FEE_BASE * 3, None).unwrap();
+		let tk = w.add_tx(out, k_tx, vec![], "pooled-child-of-E-before-eviction");
+		w.submit(out, tk, b, false, true);
+	}
+	w.stat_max("evict-scenario:max-txpool-before-eviction", w.pool.txpool.entries.len() as u64);
+	// N1: pays well; the txpool is over capacity: admitted, then E is evicted
+	let n1 = w.spend(&[take()], 2, World::weight_of(1, 2) * FEE_BASE * 4, None).unwrap();
+	let tn1 = w.add_tx(out, n1.clone(), vec![], "evicting-N1");
+	w.submit(out, tn1, b, false, true);
+	let e_gone = !w.pool.txpool.entries.iter().any(|x| x.tx.kernels() == e_tx.kernels());
+	out.raw(&format!("#STAT scenario:{}:E-evicted={}", name, e_gone));
+	// children of E submitted AFTER the eviction, before any block
+	let c1 = w.spend(&[eo[2]], 1, w11 * FEE_BASE * 6, None).unwrap();
+	let tc1 = w.add_tx(out, c1.clone(), vec![], "child-of-evicted");
+	for form in [Form::V3, Form::V2, Form::V2WrongFeatures] {
+		w.submit_form(out, tc1, b, false, true, form);
+	}
+	let c2 = w.spend(&[eo[2], take()], 1, World::weight_of(2, 1) * FEE_BASE * 6, None).unwrap();
+	let tc2 = w.add_tx(out, c2, vec![], "child-of-evicted-plus-utxo");
+	for form in [Form::V3, Form::V2, Form::V2Unsorted] {
+		w.submit_form(out, tc2, TxSource::PushApi, false, true, form);
+	}
+	// stem path while the txpool is still over capacity (it holds max_pool + 1 entries)
+	w.submit_form(out, tc1, TxSource::PushApi, true, true, Form::V2);
+	w.submit_form(out, tc1, TxSource::PushApi, true, false, Form::V3);
+	// E itself again: nothing forbids it (admitted, and the lowest payer is evicted again)
+	w.submit(out, te, TxSource::Fluff, false, true);
+	w.submit_form(out, tc1, b, false, true, Form::V3);
+	// further submissions: an independent one, a child of a pooled transaction, the aggregate of E
+	// and its child (complete in itself)
+	let n2 = w.spend(&[take()], 1, w11 * FEE_BASE * 5, None).unwrap();
+	let tn2 = w.add_tx(out, n2, vec![], "valid");
+	w.submit_form(out, tn2, b, false, true, Form::V2);
+	let n1o = w.tx_outs(&n1)[0];
+	if let Some(ch) = w.spend(&[n1o], 1, w11 * FEE_BASE * 7, None) {
+		let t = w.add_tx(out, ch, vec![], "dependent");
+		w.submit(out, t, b, false, true);
+	}
+	if let Ok(agg) = transaction::aggregate(&[e_tx.clone(), c1.clone()]) {
+		let t = w.add_tx(out, agg, vec![], "aggregate-of-evicted-parent-and-child");
+		w.submit(out, t, b, false, true);
+	}
+	w.submit_form(out, tc1, b, false, true, Form::V2);
+	// explicit evictions until the txpool is within capacity: the stem path is open again
+	let mut guard = 0;
+	while w.pool.txpool.entries.len() > max_pool && guard < 6 {
+		w.evict(out);
+		guard += 1;
+	}
+	let c3 = w.spend(&[eo[2]], 2, World::weight_of(1, 2) * FEE_BASE * 5, None).unwrap();
+	let tc3 = w.add_tx(out, c3, vec![], "child-of-evicted");
+	w.submit_form(out, tc3, TxSource::PushApi, true, true, Form::V3);
+	w.submit_form(out, tc3, TxSource::PushApi, true, true, Form::V2);
+	w.submit_form(out, tc3, TxSource::PushApi, true, false, Form::V2WrongFeatures);
+	w.submit_form(out, tc1, b, false, true, Form::V3);
+	w.submit_form(out, tc2, b, true, true, Form::V2);
+	// a block mined from the mineable set
+	let txs = w.pool.prepare_mineable_transactions().unwrap_or_default();
+	let parent = w.head;
+	let id = w.build_block(parent, 1, &txs).or_else(|| w.build_block(parent, 1, &[]));
+	if let Some(id) = id {
+		w.deliver(out, id);
+	}
+	// after the block: E's outputs still exist nowhere (unless the aggregate was mined)
+	w.submit_form(out, tc1, b, false, true, Form::V3);
+	w.submit_form(out, tc3, TxSource::PushApi, true, true, Form::V2);
+	// E again, then its child: now the parent is there
+	w.submit(out, te, b, false, true);
+	w.submit_form(out, tc1, b, false, true, Form::V2);
+	w.submit_form(out, tc3, TxSource::PushApi, true, true, Form::V3);
+	let parent = w.head;
+	if let Some(id) = w.build_block(parent, 1, &[]) {
+		w.deliver(out, id);
+	}
+	merge_stats(&w, total);
+}
+
+/// Submission forms and standalone validity: every kind in both input forms ("commit only" and
+/// "features and commit", the latter also with wrong claimed features and in the wrong order) on
+/// the fluff path, the stem path and the stem path with a relay that refuses.
+fn scenario_forms(work: &str, out: &mut Out, total: &mut BTreeMap<String, u64>) {
+	let mut rng = Rng::new(95);
+	let mut w = World::new(work, "forms", Cfg { max_pool: 50, max_stem: 50, mine_w: 250 });
+	print_cfg(&w, out);
+	warm_up(&mut w, out, &mut rng, 14);
+	w.print_head(out);
+	w.obs(out, "start");
+	let nh = w.next_height();
+	let all_free = w.free_utxo();
+	let mut plain: Vec<usize> = all_free.iter().cloned().filter(|o| !w.kit.outs[*o].coinbase).collect();
+	let mut cbs: Vec<usize> = all_free.iter().cloned().filter(|o| w.kit.outs[*o].coinbase).collect();
+	out.raw(&format!("#STAT scenario:forms:free-plain={} free-coinbase={}", plain.len(), cbs.len()));
+	if plain.len() + cbs.len() < 12 || plain.is_empty() || cbs.is_empty() {
+		out.raw("#STAT scenario:forms=not-enough-outputs");
+		return;
+	}
+	let any = |plain: &mut Vec<usize>, cbs: &mut Vec<usize>| -> usize {
+		if cbs.len() > plain.len() { cbs.remove(0) } else { plain.remove(0) }
+	};
+	let paths: [(bool, bool, TxSource); 3] =
+		[(false, true, TxSource::PushApi), (true, true, TxSource::PushApi), (true, false, TxSource::Broadcast)];
+	let w11 = World::weight_of(1, 1);
+	// over the weight limit: 1 input + 11 outputs (235 > 226), and 2 inputs (one coinbase, one
+	// plain) + 11 outputs in every form
+	let heavy1 = w.spend(&[any(&mut plain, &mut cbs)], 11, World::weight_of(1, 11) * FEE_BASE * 2, None).unwrap();
+	let th1 = w.add_tx(out, heavy1, vec![], "over-weight:1in-11out");
+	for form in [Form::V3, Form::V2, Form::V2WrongFeatures] {
+		for (stem, ok, src) in paths.iter() {
+			w.submit_form(out, th1, *src, *stem, *ok, form);
+		}
+	}
+	let heavy2 = w.spend(&[plain.remove(0), cbs.remove(0)], 11, World::weight_of(2, 11) * FEE_BASE * 2, None).unwrap();
+	let th2 = w.add_tx(out, heavy2, vec![], "over-weight:2in-11out");
+	for form in [Form::V3, Form::V2, Form::V2Unsorted] {
+		w.submit_form(out, th2, TxSource::PushApi, false, true, form);
+		w.submit_form(out, th2, TxSource::PushApi, true, true, form);
+	}
+	// exactly one over the limit, then exactly at the limit: 14 resp. 13 inputs + 10 outputs +
+	// 1 kernel = 227 resp. 226 (the block built from the latter weighs exactly max_block_weight)
+	if plain.len() + cbs.len() >= 14 + 12 {
+		let mut ins = vec![];
+		for _ in 0..14 {
+			ins.push(any(&mut plain, &mut cbs));
+		}
+		let over = w.spend(&ins, 10, World::weight_of(14, 10) * FEE_BASE, None).unwrap();
+		let tover = w.add_tx(out, over, vec![], "over-weight:14in-10out-weight-227");
+		for (form, stem) in [(Form::V3, false), (Form::V2, true), (Form::V2WrongFeatures, false), (Form::V3, true)] {
+			w.submit_form(out, tover, TxSource::PushApi, stem, true, form);
+		}
+		let back = ins.pop().unwrap();
+		if w.kit.outs[back].coinbase { cbs.push(back) } else { plain.push(back) }
+		let at = w.spend(&ins, 10, World::weight_of(13, 10) * FEE_BASE, None).unwrap();
+		let tat = w.add_tx(out, at, vec![], "valid:13in-10out-weight-226");
+		w.submit_form(out, tat, TxSource::PushApi, true, true, Form::V2);
+		w.submit_form(out, tat, TxSource::PushApi, true, true, Form::V3); // in the stempool: fluffed
+		// mined at once so that the rest of the scenario has room in the mineable set
+		let txs = w.pool.prepare_mineable_transactions().unwrap_or_default();
+		w.stat_max("forms:max-mineable-weight-at-limit", txs.iter().map(|t| t.weight()).sum());
+		let parent = w.head;
+		if let Some(id) = w.build_block(parent, 1, &txs) {
+			w.deliver(out, id);
+		}
+	} else {
+		out.raw("#STAT scenario:forms:weight-limit-boundary=not-enough-outputs");
+	}
+	// the heaviest simple transaction that is allowed: 1 input + 10 outputs (214)
+	let o = any(&mut plain, &mut cbs);
+	let okheavy = w.spend(&[o], 10, World::weight_of(1, 10) * FEE_BASE, None).unwrap();
+	let tok = w.add_tx(out, okheavy, vec![], "valid:1in-10out-weight-214");
+	w.submit_form(out, tok, TxSource::PushApi, false, true, Form::V2);
+	// below the minimum fee: one below, half, 1
+	for fee in [w11 * FEE_BASE - 1, w11 * FEE_BASE / 2] {
+		let o = any(&mut plain, &mut cbs);
+		let low = w.spend(&[o], 1, fee, None).unwrap();
+		let tl = w.add_tx(out, low, vec![], "low-fee");
+		for form in [Form::V3, Form::V2, Form::V2WrongFeatures] {
+			for (stem, ok, src) in paths.iter() {
+				w.submit_form(out, tl, *src, *stem, *ok, form);
+			}
+		}
+		// never admitted: the output stays free
+		if w.kit.outs[o].coinbase {
+			cbs.push(o)
+		} else {
+			plain.push(o)
+		}
+	}
+	// failing standalone validation: signature, kernel sum, range proof
+	for fault in 0..3 {
+		let o = any(&mut plain, &mut cbs);
+		let mut tx = w.spend(&[o], 2, World::weight_of(1, 2) * FEE_BASE * 2, None).unwrap();
+		let (tag, label) = match fault {
+			0 => {
+				tx.body.kernels[0].excess_sig = w.kit.blks[w.head].block.kernels()[0].excess_sig.clone();
+				("sig", "invalid-signature")
+			}
+			1 => {
+				tx.offset = w.kit.blks[w.head].block.header.total_kernel_offset.clone();
+				("sum", "invalid-kernel-sum")
+			}
+			_ => {
+				let p0 = tx.body.outputs[0].proof;
+				tx.body.outputs[0].proof = tx.body.outputs[1].proof;
+				tx.body.outputs[1].proof = p0;
+				("rproof", "invalid-rangeproof")
+			}
+		};
+		let t = w.add_tx(out, tx, vec![tag.to_string()], label);
+		for form in [Form::V3, Form::V2] {
+			for (stem, ok, src) in paths.iter() {
+				w.submit_form(out, t, *src, *stem, *ok, form);
+			}
+		}
+		if w.kit.outs[o].coinbase { cbs.push(o) } else { plain.push(o) }
+	}
+	// an immature coinbase: refused whatever the inputs claim
+	let imm: Vec<usize> = w.node_utxo().iter().filter(|(_, h, cb)| *cb && nh < *h + MATURITY).map(|x| x.0).collect();
+	if let Some(o) = imm.first().cloned() {
+		let tx = w.spend(&[o], 1, w11 * FEE_BASE * 2, None).unwrap();
+		let t = w.add_tx(out, tx, vec![], "immature-coinbase");
+		for form in [Form::V3, Form::V2, Form::V2WrongFeatures] {
+			w.submit_form(out, t, TxSource::PushApi, false, true, form);
+			w.submit_form(out, t, TxSource::PushApi, true, true, form);
+		}
+	}
+	// valid, two inputs (coinbase + plain): wrong order refused, then admitted in the other forms
+	let v2in = w.spend(&[plain.remove(0), cbs.remove(0)], 2, World::weight_of(2, 2) * FEE_BASE * 2, None).unwrap();
+	let tv = w.add_tx(out, v2in.clone(), vec![], "valid:2in-coinbase+plain");
+	w.submit_form(out, tv, TxSource::PushApi, false, true, Form::V2Unsorted);
+	w.submit_form(out, tv, TxSource::PushApi, true, true, Form::V2Unsorted);
+	w.submit_form(out, tv, TxSource::PushApi, true, true, Form::V2WrongFeatures); // into the stempool
+	w.submit_form(out, tv, TxSource::PushApi, true, true, Form::V3); // already there: fluffed
+	w.submit_form(out, tv, TxSource::Broadcast, false, true, Form::V2); // duplicate
+	// valid single input: each form on each path, a fresh transaction each time
+	for form in [Form::V3, Form::V2, Form::V2WrongFeatures] {
+		for (stem, ok, src) in paths.iter() {
+			if plain.is_empty() && cbs.is_empty() {
+				break;
+			}
+			let o = any(&mut plain, &mut cbs);
+			let tx = w.spend(&[o], 1, World::good_fee(&mut rng, w11), None).unwrap();
+			let t = w.add_tx(out, tx, vec![], "valid");
+			w.submit_form(out, t, *src, *stem, *ok, form);
+		}
+	}
+	// children of pooled transactions (pool-created outputs are plain; v2x claims coinbase)
+	for form in [Form::V2, Form::V2WrongFeatures, Form::V3] {
+		let outs = w.pool_outputs(false);
+		if let Some((o, _)) = outs.first().cloned() {
+			let tx = w.spend(&[o], 1, w11 * FEE_BASE * 3, None).unwrap();
+			let t = w.add_tx(out, tx, vec![], "dependent");
+			w.submit_form(out, t, TxSource::PushApi, form == Form::V3, true, form);
+		}
+	}
+	// aggregate of a pooled transaction and a new one, in v2 form (deaggregated on the fluff path)
+	let pooled: Vec<Transaction> = w.pool.txpool.entries.iter().map(|e| e.tx.clone()).collect();
+	if let (Some(p), false) = (pooled.first(), plain.is_empty() && cbs.is_empty()) {
+		let o = any(&mut plain, &mut cbs);
+		let n = w.spend(&[o], 1, w11 * FEE_BASE * 2, None).unwrap();
+		w.default_form = Form::V2;
+		w.submit_aggregate(out, &[p.clone()], &[n], "aggregate-pooled+new", TxSource::PushApi, false, true);
+		w.default_form = Form::V3;
+	}
+	// and a block
+	let txs = w.pool.prepare_mineable_transactions().unwrap_or_default();
+	let parent = w.head;
+	if let Some(id) = w.build_block(parent, 1, &txs) {
+		w.deliver(out, id);
+	}
+	merge_stats(&w, total);
+}
+
+fn run_history(
+	work: &str,
+	out: &mut Out,
+	rng: &mut Rng,
+	hist: usize,
+	nops: usize,
+	focus: bool,
+	total: &mut BTreeMap<String, u64>,
+) {
+	let cfg = if focus {
+		// eviction-focused: tiny capacities, mostly admissible submissions, few blocks
+		Cfg { max_pool: 1 + hist % 3, max_stem: 1 + hist % 2, mine_w: 250 }
+	} else {
+		match hist % 4 {
+			0 => Cfg { max_pool: 3, max_stem: 2, mine_w: 130 },
+			1 => Cfg { max_pool: 50, max_stem: 50, mine_w: 250 },
+			2 => Cfg { max_pool: 2, max_stem: 1, mine_w: 100 },
+			_ => Cfg { max_pool: 5, max_stem: 3, mine_w: 75 },
+		}
+	};
+	let mut w = World::new(work, &format!("{}{}", if focus { "e" } else { "h" }, hist), cfg);
+	w.focus = focus;
 	print_cfg(&w, out);
 	let warm = rng.range(5, 9) as usize;
 	warm_up(&mut w, out, rng, warm);
@@ -1709,7 +2364,24 @@ fn run_history(work: &str, out: &mut Out, rng: &mut Rng, hist: usize, nops: usiz
 	let mut tries = 0;
 	while done < nops && tries < nops * 6 {
 		tries += 1;
-		let k = rng.below(100);
+		w.default_form = match rng.below(20) {
+			0..=9 => Form::V3,
+			10..=15 => Form::V2,
+			16..=17 => Form::V2WrongFeatures,
+			_ => Form::V2Unsorted,
+		};
+		let k = if focus {
+			// 88% submissions, 6% blocks, 2% reorgs, 3% explicit evictions, 1% truncations
+			match rng.below(100) {
+				0..=87 => 0,
+				88..=93 => 80,
+				94..=95 => 90,
+				96..=98 => 95,
+				_ => 99,
+			}
+		} else {
+			rng.below(100)
+		};
 		let ok = if k < 72 {
 			random_submission(&mut w, out, rng)
 		} else if k < 86 {
@@ -1737,7 +2409,7 @@ fn run_history(work: &str, out: &mut Out, rng: &mut Rng, hist: usize, nops: usiz
 			done += 1;
 		}
 	}
-	*total.entry("histories".into()).or_insert(0) += 1;
+	*total.entry(if focus { "histories:eviction-focused".to_string() } else { "histories".to_string() }).or_insert(0) += 1;
 	*total.entry("ops".into()).or_insert(0) += done as u64;
 	for (k, v) in &w.stats {
 		if k.contains("max-") {
@@ -1751,46 +2423,128 @@ fn run_history(work: &str, out: &mut Out, rng: &mut Rng, hist: usize, nops: usiz
 	}
 }
 
+type Job = Box<dyn FnOnce(&str, &mut Out, &mut BTreeMap<String, u64>) + Send>;
+
+/// Scenarios and histories are independent (each has its own chains and pool): they run on
+/// worker threads, their output is collected and printed in the fixed job order.
 fn main() {
 	quiet_panics();
 	setup_globals();
 	global::set_local_accept_fee_base(FEE_BASE);
 	let work = std::env::var("VERIF_WORK").unwrap_or_else(|_| "/verif/work/pool.d".to_string());
 	let _ = std::fs::create_dir_all(&work);
-	let mut rng = Rng::new(seed_from_env());
+	let seed = seed_from_env();
 	let thorough = tier_thorough();
 	let args: Vec<String> = std::env::args().collect();
 	let mode = args.get(1).map(|s| s.as_str()).unwrap_or("all").to_string();
-	let mut out = Out::stdout();
+	let mut jobs: Vec<(String, Job)> = vec![];
+	if mode == "all" || mode == "scenarios" {
+		jobs.push(("evict-witness".into(), Box::new(|w, o, t| scenario_evict_witness(w, o, t))));
+		jobs.push(("evict-chain".into(), Box::new(|w, o, t| scenario_evict_chain(w, o, t))));
+		jobs.push(("low-fee-at-capacity".into(), Box::new(|w, o, t| scenario_low_fee_at_capacity(w, o, t))));
+		jobs.push(("full-aggregate".into(), Box::new(|w, o, t| scenario_full_aggregate(w, o, t))));
+		jobs.push(("aggregate-low-fee".into(), Box::new(|w, o, t| scenario_aggregate_low_fee(w, o, t))));
+		jobs.push(("reorg-lower".into(), Box::new(|w, o, t| scenario_reorg_lower(w, o, t))));
+		for v in 0..3 {
+			jobs.push((format!("evict-children-{}", v), Box::new(move |w, o, t| scenario_evict_children(w, o, t, v))));
+		}
+		jobs.push(("forms".into(), Box::new(|w, o, t| scenario_forms(w, o, t))));
+	}
+	if mode == "all" || mode == "random" {
+		let nh: usize = args.get(2).and_then(|s| s.parse().ok()).unwrap_or(if thorough { 16 } else { 4 });
+		let nops: usize = args.get(3).and_then(|s| s.parse().ok()).unwrap_or(if thorough { 100 } else { 45 });
+		for h in 0..nh {
+			jobs.push((
+				format!("h{}", h),
+				Box::new(move |w, o, t| {
+					// one stream per history, derived from the seed
+					let mut rng = Rng::new(seed.wrapping_mul(1_000_003).wrapping_add(7919 * (h as u64 + 1)));
+					run_history(w, o, &mut rng, h, nops, false, t)
+				}),
+			));
+		}
+		let nf: usize = args.get(4).and_then(|s| s.parse().ok()).unwrap_or(if thorough { 12 } else { 3 });
+		for h in 0..nf {
+			jobs.push((
+				format!("e{}", h),
+				Box::new(move |w, o, t| {
+					let mut rng = Rng::new(seed.wrapping_mul(1_000_003).wrapping_add(104_729 * (h as u64 + 1)));
+					run_history(w, o, &mut rng, h, nops, true, t)
+				}),
+			));
+		}
+	}
+	let njobs = jobs.len();
+	let nthreads: usize = std::env::var("VERIF_THREADS").ok().and_then(|s| s.parse().ok()).unwrap_or(8).max(1).min(njobs.max(1));
+	let queue: Mutex<std::collections::VecDeque<(usize, String, Job)>> =
+		Mutex::new(jobs.into_iter().enumerate().map(|(i, (n, j))| (i, n, j)).collect());
+	let results: Mutex<Vec<Option<(String, BTreeMap<String, u64>)>>> = Mutex::new((0..njobs).map(|_| None).collect());
+	let t0 = std::time::Instant::now();
+	std::thread::scope(|scope| {
+		for _ in 0..nthreads {
+			scope.spawn(|| {
+				setup_globals();
+				global::set_local_accept_fee_base(FEE_BASE);
+				loop {
+					let next = queue.lock().unwrap().pop_front();
+					let (i, name, job) = match next {
+						Some(x) => x,
+						None => break,
+					};
+					let dir = format!("{}/{}", work, name);
+					let _ = std::fs::create_dir_all(&dir);
+					let mut out = Out::new();
+					let mut stats = BTreeMap::new();
+					job(&dir, &mut out, &mut stats);
+					let _ = std::fs::remove_dir_all(&dir);
+					if std::env::var("VERIF_DEBUG").is_ok() {
+						eprintln!("[{:7.2}s] done {}", t0.elapsed().as_secs_f64(), name);
+					}
+					results.lock().unwrap()[i] = Some((out.buf, stats));
+				}
+			});
+		}
+	});
 	let mut total: BTreeMap<String, u64> = BTreeMap::new();
-	out.raw(&format!(
-		"#STAT config: accept_fee_base={} (global, what is_acceptable reads) max_tx_weight={} max_block_weight={} maturity={}; per history (max_pool_size,max_stempool_size,mineable_max_weight) in (3,2,130) (50,50,250) (2,1,100) (5,3,75); scenarios use (2,50,250) (1,50,250) (50,50,250)",
+	let mut text = String::new();
+	text.push_str(&format!(
+		"#STAT config: accept_fee_base={} (global, what is_acceptable reads) max_tx_weight={} max_block_weight={} maturity={}; per history (max_pool_size,max_stempool_size,mineable_max_weight) in (3,2,130) (50,50,250) (2,1,100) (5,3,75); scenarios use (2,50,250) (1,50,250) (50,50,250), eviction-then-children (2,2,250) (3,2,250), forms (50,50,250)\n",
 		FEE_BASE,
 		global::max_tx_weight(),
 		global::max_block_weight(),
 		MATURITY
 	));
-	if mode == "all" || mode == "scenarios" {
-		scenario_evict_witness(&work, &mut out, &mut total);
-		scenario_evict_chain(&work, &mut out, &mut total);
-		scenario_low_fee_at_capacity(&work, &mut out, &mut total);
-		scenario_full_aggregate(&work, &mut out, &mut total);
-		scenario_aggregate_low_fee(&work, &mut out, &mut total);
-		scenario_reorg_lower(&work, &mut out, &mut total);
-		let _ = std::fs::remove_dir_all(&work);
-		let _ = std::fs::create_dir_all(&work);
-	}
-	if mode == "all" || mode == "random" {
-		let nh: usize = args.get(2).and_then(|s| s.parse().ok()).unwrap_or(if thorough { 16 } else { 4 });
-		let nops: usize = args.get(3).and_then(|s| s.parse().ok()).unwrap_or(if thorough { 90 } else { 45 });
-		for h in 0..nh {
-			run_history(&work, &mut out, &mut rng, h, nops, &mut total);
-			let _ = std::fs::remove_dir_all(&work);
-			let _ = std::fs::create_dir_all(&work);
+	let mut failed = false;
+	for (i, r) in results.into_inner().unwrap().into_iter().enumerate() {
+		match r {
+			Some((buf, stats)) => {
+				text.push_str(&buf);
+				for (k, v) in stats {
+					if k.contains("max-") {
+						let e = total.entry(k).or_insert(0);
+						if v > *e {
+							*e = v;
+						}
+					} else {
+						*total.entry(k).or_insert(0) += v;
+					}
+				}
+			}
+			None => {
+				eprintln!("pool harness: job {} did not finish (panicked)", i);
+				failed = true;
+			}
 		}
 	}
 	for (k, v) in total {
-		out.raw(&format!("#STAT {}={}", k, v));
+		text.push_str(&format!("#STAT {}={}\n", k, v));
 	}
-	out.flush();
+	use std::io::Write;
+	let stdout = std::io::stdout();
+	let mut lock = stdout.lock();
+	lock.write_all(text.as_bytes()).unwrap();
+	lock.flush().unwrap();
+	if failed {
+		std::process::exit(1);
+	}
 }
